@@ -455,6 +455,11 @@ func knownMax(t *Term) uint64 {
 		if t.A[1].Op == OpConst && t.A[1].Val > 0 {
 			return t.A[1].Val - 1
 		}
+	case OpAdd:
+		a, b := knownMax(t.A[0]), knownMax(t.A[1])
+		if s := a + b; s >= a && s <= mask(t.W) {
+			return s
+		}
 	}
 	return mask(t.W)
 }
@@ -985,6 +990,16 @@ func (tt *TermTable) ZExt(a *Term, w uint8) *Term {
 	}
 	if a.Op == OpZExt {
 		return tt.ZExt(a.A[0], w)
+	}
+	if a.Op == OpAdd {
+		// zero extension distributes over an addition that cannot overflow
+		ka, kb := knownMax(a.A[0]), knownMax(a.A[1])
+		if s := ka + kb; s >= ka && s <= mask(a.W) {
+			return tt.Add(tt.ZExt(a.A[0], w), tt.ZExt(a.A[1], w))
+		}
+	}
+	if a.Op == OpExtract && a.Imm2 == 0 && a.A[0].W == w && knownMax(a.A[0]) <= mask(a.W) {
+		return a.A[0]
 	}
 	return tt.mk(OpZExt, w, 0, 0, a, nil, nil)
 }
